@@ -20,7 +20,7 @@ RULE = ("seeded circuits in which a random subset of edges carries (delay, sprea
 DECIDING = ['matrix_kernel_connections', 'matrix_kernel_order_rounds_up', 'uniform_kernel_models', 'rows_compared', 'kernel_edges', 'mdelay_chains', 'vectorized_runs', 'scipy_runs', 'orders_seen_2plus']
 ASSUMPTIONS = ['(d/s)^2 >= 1 and away from rounding ties', 'chain states start at zero']
 CASE_TIMEOUT = 240
-FOCUS = ['undelayed_shares_source_with_delayed', 'two_delayed_same_pair', 'delayed_source_op_has_intra_consumer',
+FOCUS = ['gamma_delay_within_one_step', 'undelayed_shares_source_with_delayed', 'two_delayed_same_pair', 'delayed_source_op_has_intra_consumer',
          'two_delayed_source_vars_same_op']
 
 
@@ -105,6 +105,17 @@ def make_case(case, ctx):
                     e[3]['delay'] = round(d, 7)
                     e[3]['spread'] = round(e[3]['delay'] / math.sqrt(n + delta), 9)
                     nd += 1
+            if want == 'gamma_delay_within_one_step':
+                # gamma kernels whose MEAN delay does not exceed the step size handed to run (meaningful under an adaptive solver)
+                nd = 0
+                for e in edges:
+                    e[3].pop('delay', None)
+                    e[3].pop('spread', None)
+                for e in rnd.sample(edges, rnd.randint(1, min(2, len(edges)))):
+                    n = rnd.choice([1, 2])
+                    e[3]['delay'] = round(rnd.choice([0.5, 0.8, 1.0]) * dt, 7)
+                    e[3]['spread'] = round(e[3]['delay'] / math.sqrt(n + (0.2 if n == 1 else 0.0)), 9)
+                    nd += 1
             if want == 'two_delayed_same_pair':
                 e = rnd.choice(edges)
                 e[3]['delay'], e[3]['spread'] = 4 * dt, 4 * dt / math.sqrt(2.1)
@@ -113,6 +124,8 @@ def make_case(case, ctx):
             if nd == 0:
                 continue
             solver = rnd.choice(['euler', 'euler', 'euler', 'scipy']) if not mixed else 'euler'
+            if want == 'gamma_delay_within_one_step':
+                solver = 'scipy'
             vec = rnd.random() < 0.5 or want == 'several_kernels_one_merged_source'
             r2 = c09.delay_risks(spec, solver) | c04.vec_risks(spec) | mixed_risks(spec) | kernel_risks(spec, vec)
             if mixed and not any(e[3].get('delay') and not e[3].get('spread') for e in edges):
@@ -144,6 +157,8 @@ def mixed_risks(spec):
         tn, to, tv = t_.rsplit('/', 2)
         kinds.setdefault((node_group[sn], so, sv), set()).add('gamma' if a.get('spread') else 'discrete')
     out = {'bundle_mixes_discrete_and_gamma'} if any(len(v) > 1 for v in kinds.values()) else set()
+    if any(a.get('delay') and a.get('spread') and float(a['delay']) <= 1e-3 for s_, t_, et, a in edge_list):
+        out.add('gamma_delay_within_one_step')
     return out
 
 
